@@ -49,6 +49,8 @@ YR_RULES* compile_simple(const std::string& src);    // aborts the process on fa
 struct MemStream {
   std::string data; size_t pos = 0;
   int64_t fail_write_after_items = -1;  // n-th write call (0-based count of successful calls) fails
+  int64_t fail_write_once_at = -1;      // transient fault: only the write call with this 0-based index fails, later calls succeed again
+  int64_t write_calls = 0;
   int64_t writes = 0, reads = 0;
   size_t max_chunk = 0;                 // simulated disk delivers at most this many bytes per low-level read (0: unlimited)
   YR_STREAM stream();
